@@ -37,19 +37,17 @@ pub fn hash_of<T: Hash>(t: &T) -> u64 {
     h.finish()
 }
 
-pub const MAXLEN: usize = 6;
-
-/// All ASCII byte strings of length 0..=maxlen (<= 6): `parse` accepts exactly the unsigned
-/// decimal numerals (digits only, optionally preceded by '+') whose value is <= max, and
-/// yields that value.
-pub fn parse_all<N: Nd, T: core::str::FromStr + Copy>(
+/// All ASCII byte strings of length 0..=maxlen (<= MAXLEN <= 9, so that the oracle's u32 value
+/// cannot overflow): `parse` accepts exactly the unsigned decimal numerals (digits only,
+/// optionally preceded by '+') whose value is <= max, and yields that value.
+pub fn parse_all<N: Nd, T: core::str::FromStr + Copy, const MAXLEN: usize>(
     nd: &mut N,
     max: u32,
     maxlen: usize,
     get: fn(T) -> u32,
 ) {
     let len = nd.usize();
-    nd.assume(len <= maxlen && maxlen <= MAXLEN);
+    nd.assume(len <= maxlen && maxlen <= MAXLEN && MAXLEN <= 9);
     let mut buf = [0u8; MAXLEN];
     let mut k = 0;
     while k < MAXLEN {
